@@ -342,7 +342,7 @@ class Ctx:
 def brief(line):
     try:
         e = json.loads(line)
-        for k in ("st", "defs", "groups"):
+        for k in ("st", "defs", "groups", "out", "paths", "dates"):
             e.pop(k, None)
         return json.dumps(e)[:300]
     except Exception:
